@@ -511,6 +511,11 @@ def c10(tier, seed):
         body = c10_body(rng) + ENDINGS["threshold"]
         out.append(scenario("c10-rerun-%d" % i, {"body": body}, {"checks": 100, "seed": rng.randrange(1, 1 << 64)},
                             runs=[{}, {}], tag={"ending": "threshold", "runs": 2}))
+        cbody = [op("ctx", text="custom"), op("cleanup", body=CLEANUP_KINDS[rng.choice(["plain", "registers", "nested"])]()),
+                 op("cleanup", body=CLEANUP_KINDS[rng.choice(["plain", "registers", "panics"])]()),
+                 draw(IntRange(0, 5), "a", "a"), iff("a", "le", rng.choice([-1, 1, 2]), [op("skip")]), op("ctx", text="custom")]
+        eg = g("SliceOfN", elem=g("Custom", elem=g("Int8"), body=cbody), minLen=0, maxLen=3)
+        out.append(scenario("c10-example-%d" % i, {"body": []}, {}, runs=[{"entry": "example", "exampleGen": eg, "exampleN": 25}], tag={"entry": "example"}))
         fz = ["", "00" * 8, "ff" * 24, "%016x" % rng.randrange(1 << 64) * 6, "01" * 37]
         out.append(scenario("c10-fuzz-%d" % i, {"body": c10_body(rng) + ENDINGS["nonfatal"]}, {}, runs=[{"fuzz": fz}], entry="fuzz",
                             tag={"ending": "nonfatal", "entry": "fuzz"}))
